@@ -98,10 +98,12 @@ type modAnalysis struct {
 	methods    map[string][]*ssa.Function // method name -> concrete methods in loaded packages
 	reachCache map[string]ModSet
 	externUsed map[string]bool
+	// paramCalls[f][i]: f calls its i-th parameter (a function value); resolved at f's call sites
+	paramCalls map[*ssa.Function]map[int]bool
 }
 
 func (c *Ctx) buildModAnalysis() {
-	ma := &modAnalysis{ctx: c, summary: map[*ssa.Function]*ModSet{}, addrTaken: map[string][]*ssa.Function{}, methods: map[string][]*ssa.Function{}, reachCache: map[string]ModSet{}, externUsed: map[string]bool{}}
+	ma := &modAnalysis{ctx: c, summary: map[*ssa.Function]*ModSet{}, addrTaken: map[string][]*ssa.Function{}, methods: map[string][]*ssa.Function{}, reachCache: map[string]ModSet{}, externUsed: map[string]bool{}, paramCalls: map[*ssa.Function]map[int]bool{}}
 	c.mods = ma
 	var fns []*ssa.Function
 	for fn := range c.allFuncs {
@@ -207,8 +209,27 @@ func (c *Ctx) buildModAnalysis() {
 }
 
 func sigKey(sig *types.Signature) string {
-	// ignore the receiver
-	return types.TypeString(types.NewSignatureType(nil, nil, nil, sig.Params(), sig.Results(), sig.Variadic()), nil)
+	// parameter and result *types* only: names and the receiver do not matter for CHA by signature
+	var b strings.Builder
+	b.WriteString("func(")
+	for i := 0; i < sig.Params().Len(); i++ {
+		if i > 0 {
+			b.WriteString(",")
+		}
+		if sig.Variadic() && i == sig.Params().Len()-1 {
+			b.WriteString("...")
+		}
+		b.WriteString(types.TypeString(sig.Params().At(i).Type(), nil))
+	}
+	b.WriteString(")(")
+	for i := 0; i < sig.Results().Len(); i++ {
+		if i > 0 {
+			b.WriteString(",")
+		}
+		b.WriteString(types.TypeString(sig.Results().At(i).Type(), nil))
+	}
+	b.WriteString(")")
+	return b.String()
 }
 
 // isFreshRoot: is the object designated by v certainly allocated by an
@@ -355,6 +376,12 @@ func (ma *modAnalysis) instrMods(fn *ssa.Function, in ssa.Instruction, inScope f
 		ms.add(elemHeapName(x.Type().Underlying().(*types.Slice).Elem()), ModFresh)
 	case *ssa.MakeClosure, *ssa.MakeChan:
 		ms.add("$alloc", ModAny)
+	case *ssa.Send:
+		if ct, ok := x.Chan.Type().Underlying().(*types.Chan); ok {
+			hv, hn := chanHeapNames(ct.Elem())
+			ms.add(hv, ModAny)
+			ms.add(hn, ModAny)
+		}
 	case ssa.CallInstruction:
 		common := x.Common()
 		if b, ok := common.Value.(*ssa.Builtin); ok {
@@ -431,6 +458,27 @@ func (ma *modAnalysis) commonMods(common *ssa.CallCommon) ModSet {
 		if len(sc.Blocks) == 0 {
 			ms.union(ma.callbackMods(sc, common.Args))
 		}
+		// the callee calls some of its function-typed parameters: use the actual arguments
+		for i := range ma.paramCalls[sc] {
+			if i >= len(common.Args) {
+				continue
+			}
+			if fns, ok := resolveFuncValue(common.Args[i], 0); ok {
+				for _, f := range fns {
+					ms.union(ma.calleeMods(f))
+					if f.Parent() != nil {
+						ms.union(ma.closureParamMods(f))
+					}
+				}
+			} else {
+				ms.opaque = true
+				if sig, ok := common.Args[i].Type().Underlying().(*types.Signature); ok {
+					for _, t := range ma.addrTaken[sigKey(sig)] {
+						ms.union(ma.calleeMods(t))
+					}
+				}
+			}
+		}
 		// a pointer / map / slice boxed into an interface argument (json.Unmarshal(b, &x), a helm
 		// wrapper around it ...) can be written through by code that has no body here
 		if cm.opaque && !ma.readOnlyCallee(sc) {
@@ -445,12 +493,75 @@ func (ma *modAnalysis) commonMods(common *ssa.CallCommon) ModSet {
 		}
 		return ms
 	}
+	// a call of one of the caller's own function-typed parameters is resolved at the caller's call sites
+	if p, ok := common.Value.(*ssa.Parameter); ok && p.Parent() != nil {
+		for i, fp := range p.Parent().Params {
+			if fp == p {
+				if ma.paramCalls[p.Parent()] == nil {
+					ma.paramCalls[p.Parent()] = map[int]bool{}
+				}
+				ma.paramCalls[p.Parent()][i] = true
+				return ms
+			}
+		}
+	}
 	// dynamic call through a function value
 	ms.opaque = true
 	for _, t := range ma.addrTaken[sigKey(common.Signature())] {
 		ms.union(ma.calleeMods(t))
 	}
 	return ms
+}
+
+// resolveFuncValue finds the functions a function-typed value can denote when that is
+// syntactically evident: a closure, a function, a conversion of one, a phi of such, or the
+// result of a static call to a function all of whose returns are such values.
+func resolveFuncValue(v ssa.Value, depth int) ([]*ssa.Function, bool) {
+	if depth > 3 {
+		return nil, false
+	}
+	switch a := v.(type) {
+	case *ssa.MakeClosure:
+		if f, ok := a.Fn.(*ssa.Function); ok {
+			return []*ssa.Function{f}, true
+		}
+	case *ssa.Function:
+		return []*ssa.Function{a}, true
+	case *ssa.ChangeType:
+		return resolveFuncValue(a.X, depth)
+	case *ssa.Phi:
+		var all []*ssa.Function
+		for _, e := range a.Edges {
+			if e == v {
+				continue
+			}
+			fs, ok := resolveFuncValue(e, depth+1)
+			if !ok {
+				return nil, false
+			}
+			all = append(all, fs...)
+		}
+		return all, true
+	case *ssa.Call:
+		sc := a.Call.StaticCallee()
+		if sc == nil || len(sc.Blocks) == 0 || sc.Signature.Results().Len() != 1 {
+			return nil, false
+		}
+		var all []*ssa.Function
+		for _, b := range sc.Blocks {
+			for _, in := range b.Instrs {
+				if r, ok := in.(*ssa.Return); ok {
+					fs, ok := resolveFuncValue(r.Results[0], depth+1)
+					if !ok {
+						return nil, false
+					}
+					all = append(all, fs...)
+				}
+			}
+		}
+		return all, len(all) > 0
+	}
+	return nil, false
 }
 
 func (ma *modAnalysis) calleeMods(fn *ssa.Function) ModSet {
@@ -527,6 +638,9 @@ func (ma *modAnalysis) calleeMods(fn *ssa.Function) ModSet {
 	ms.union(r)
 	return ms
 }
+
+// closureParamMods: nothing further for now (closures that call their own parameters are rare)
+func (ma *modAnalysis) closureParamMods(f *ssa.Function) ModSet { return ModSet{} }
 
 func (ma *modAnalysis) readOnlyCallee(fn *ssa.Function) bool {
 	if fc := ma.ctx.contracts.Funcs[funcKey(fn)]; fc != nil && fc.Pure {
